@@ -133,6 +133,15 @@ Definition cdatemd (t : Z) : list Z :=
   let s := print_dec m ++ [47] ++ two d in
   if (length s =? 4)%nat then 32 :: s else s.
 
+(* the Date field (ptttype.Date_t, 6 bytes) of an index entry whose stamp time is t: fhdrStamp copies nowTS.Cdatemd()
+   into the zeroed field *)
+Definition date_field_of (t : Z) : list Z := fixlen 6 (cdatemd t).
+
+(* one process asked for the dates of a history of stamp times, in that order (a server that stays up over day, month
+   and year boundaries, or whose clock is stepped back): every answer is the date of its own time — Cdatemd keeps
+   nothing from one call to the next *)
+Definition stamp_dates (ts : list Z) : list (list Z) := map date_field_of ts.
+
 (* ------------------------------------------------------------------ the board directory as a map name -> bytes *)
 Definition files := list (list Z * list Z).
 
@@ -508,7 +517,8 @@ Definition wire_shm (r : res (shm * state * list outcome * bool)) : list Z :=
 (* op 1: [1]; [nusers nboards nposts]; users; boards; posts  ->  outcomes, numposts, boards
    op 2: [2]; [total]; name; dir; files; aid               ->  0 absent / 1 content
    op 3: [3]; [nusers nboards nposts]; [bbusystate busystateb..]; [lastposttime..]; users; boards; posts
-                                                           ->  outcomes, numposts, boards, bbusystate, busystateb.., lastposttime.. *)
+                                                           ->  outcomes, numposts, boards, bbusystate, busystateb.., lastposttime..
+   op 4: [4]; [t..]                                        ->  the 6-byte date fields of the times, in order (stamp_dates) *)
 Definition run_case (args : list (list Z)) : list Z :=
   match args with
   | [3] :: [nu; nb; np] :: (bbusy :: busyb) :: lastpost :: g =>
@@ -545,6 +555,7 @@ Definition run_case (args : list (list Z)) : list Z :=
             end
         end
       else [ST_BADCASE]
+  | [[4]; ts] => ST_OK :: concat (stamp_dates ts)
   | [[2]; [tot]; name; dir; fe; aid] =>
       match dec_files fe with
       | None => [ST_BADCASE]
